@@ -3,9 +3,16 @@
 import json, os
 VERIF = os.path.dirname(os.path.dirname(os.path.abspath(__file__)))
 TECH = 'bounded symbolic execution of the clang-lowered real functions (LLVM IR -> C via engine/ir2c.py) with CBMC 6.11 + CaDiCaL; unwinding assertions; witness twin; counterexample replay against g++/ASan build'
+COMMON_NOTE = 'Trusted: clang-14 -O1 lowering, engine/ir2c.py (validated every run by differential execution of the generated C against the g++ build of the same sources on random vectors), CBMC 6.11 + CaDiCaL, malloc never fails; per-property stubs and contracts are listed in the evidence file (assumptions) and DESIGN.md.'
 CLAIMED = {
- 'C19': dict(text='Solver verdict (UNSAT with unwinding assertions) over all inputs inside the stated bounds for the real OASIS/GDSII number codecs: all 64-bit integers, all byte strings up to 11 bytes, all doubles in the GDSII range; bounded model checking is the right level because the codecs are loop-bounded bit-vector functions where the interesting inputs (7-bit group boundaries, exponent edges) are rare.',
-             note='Trusted: clang-14 lowering at -O1, the IR->C translator (validated every run against the g++ build on random vectors), CBMC/CaDiCaL, libm contracts for log2/exp2/pow listed in the evidence assumptions; malloc never fails.', ref='3.1'),
+ 'C19': dict(text='Solver verdict (UNSAT with unwinding assertions, witness twin violated) over all inputs inside the stated bounds for the real OASIS/GDSII number codecs: all 64-bit integers, all byte strings with encodings of 1..11 bytes, every finite double for the OASIS real round trip, every double in the GDSII range, point lists of 3 vertices; bounded model checking is the right level because the codecs are loop-bounded bit-vector functions whose interesting inputs (7-bit group boundaries, exponent edges, reciprocal forms) are rare.',
+             note=COMMON_NOTE + ' libm contracts for log2/pow/exp2/ceil/trunc; IEEE division as an uninterpreted sign-symmetric function (bit-precise fallback); point lists on a typed token stream.', ref='3.1'),
+ 'C20': dict(text='One inductive step per operation from an ARBITRARY valid table/list/array (solver chooses slot pattern, keys, values and the hash function), so operation histories of any length are covered for tables of the stated capacity; sorting kernels for every array up to 6 elements under any ordering; property lists as ordered multimaps.',
+             note=COMMON_NOTE + ' hash functions replaced by arbitrary functions; copy_string by its contract for 1-character keys; table growth is its own step (resize proved, then used as a contract in set-at-threshold).', ref='3.3'),
+ 'C14': dict(text='Polygon::contain equals an exact integer winding-number/on-boundary oracle for every vertex list of <= 3 (thorough 4) vertices on a grid and every half-grid query point, with every double operation of the real code proved exact; group queries proved equal to AND/OR of contain for an arbitrary contain satisfying the proved bounding-box lemma; area/perimeter equal the shoelace / edge sums.',
+             note=COMMON_NOTE + ' integer-exact arithmetic model justified by range assertions inside each query (IEEE-754: exact on integer-valued doubles below 2^53); Vec2::length abstracted in perimeter.', ref='3.2'),
+ 'C11': dict(text='For every repetition kind and every shape up to 3x3 / 3 entries (shapes enumerated, values symbolic): count, enumerated offsets and extrema agree with the documented vector set; Repetition::transform maps every vector by m*R(c,s)*reflect with cos/sin as free symbols (one query covers all rotations); Polygon::apply_repetition yields exactly one independent translated deep copy per non-zero vector.',
+             note=COMMON_NOTE + ' integer-exact model; cos/sin free integer symbols (polynomial-identity argument, DESIGN.md 2.2); replay of transform counterexamples only for axis rotations.', ref='3.4'),
 }
 NA = {
 }
